@@ -287,6 +287,24 @@ class C08:
                     changed = True
         state_mod = self.state.module.name
         n_sites = 0
+        # which parameter of each closure function is the entry that `updated` puts into the dirty set
+        ent_param = {upd.qname: upd.params()[1]}
+        grow = True
+        while grow:
+            grow = False
+            for q in list(ent_param):
+                fq = ctx.prog.functions[q]
+                for c_ in ctx.own_nodes(fq):
+                    if isinstance(c_, ast.Call) and isinstance(c_.func, ast.Attribute) and isinstance(c_.func.value, ast.Name) and c_.func.value.id == fq.self_name:
+                        tgt = self.state.methods.get(c_.func.attr)
+                        if tgt is None or tgt.qname not in closure or tgt.qname in ent_param:
+                            continue
+                        for i_, a_ in enumerate(c_.args):
+                            if isinstance(a_, ast.Name) and a_.id == ent_param[q] and i_ + 1 < len(tgt.params()):
+                                ent_param[tgt.qname] = tgt.params()[i_ + 1]
+                                grow = True
+        # frozen exception (read and confirmed): the entry ousted from a path slot loses its path without being re-saved
+        NOT_DIRTY_OK = {("_change_path", "_path", "None")}         # (function, field, value stored)
         for f in ctx.prog.functions.values():
             for n in ctx.own_nodes(f):
                 is_raw = False
@@ -312,6 +330,18 @@ class C08:
                 rep.check("C08.R4", key, ctx.line(f, n), owner_ok, "written by the funnel / by updated's closure",
                           "private persisted field written by %s, which is neither part of the attribute funnel nor of SyncState.updated" % short(f.qname), func=f.qname,
                           nontrivial=False)
+                if owner_ok and f.qname in ent_param and isinstance(n, ast.Attribute):
+                    root = recv
+                    while isinstance(root, ast.Subscript):
+                        root = root.value
+                    same_ent = isinstance(root, ast.Name) and root.id == ent_param[f.qname]
+                    asg = [a_ for a_ in ctx.own_nodes(f) if isinstance(a_, ast.Assign) and any(t_ is n for t_ in a_.targets)]
+                    if not same_ent and asg and (f.name, n.attr, ast.unparse(asg[0].value)) in NOT_DIRTY_OK:
+                        rep.note("C08.R4", key + "|dirty-entry", ctx.line(f, n), "stores a private field of the ousted entry, which is not re-saved (frozen exception, read and confirmed)")
+                        continue
+                    rep.check("C08.R4", key + "|dirty-entry", ctx.line(f, n), same_ent, "store on the entry that updated() marks dirty",
+                              "`%s` in %s changes a persisted field of an entry other than the one SyncState.updated marks dirty: the attribute funnel is bypassed, "
+                              "that entry is never re-saved (memory and storage disagree after a restart)" % (ast.unparse(n), f.name), func=f.qname)
         if n_sites < 8:
             raise AnalysisError("only %d private-field store sites found (positive control failed)" % n_sites)
 
@@ -448,3 +478,8 @@ def run(ctx: Ctx, rep: Report, tier: str):
     if "priority" in ser:
         rep.note("C08.R1", "SyncEntry|priority", c.entry.methods["deserialize"], "priority is serialised and read back into the local dict only (not in the property's field list)")
     rep.assume("msgpack round-trips str / bytes / float / None / nested tuples of bytes unchanged")
+    from rules.common import alias
+    from rules.C15 import C15
+    alias(rep, ["C15.R2"], "C08.R7", "the commit of an applied event runs inside the same lock region as the state change (C15.R2): the dirty set is never "
+          "iterated by one thread while the other adds to it, so no dirty entry is dropped from a commit", 1, lambda: C15(ctx, rep).r2(),
+          keep=lambda i: "_process_event" in i.key)
